@@ -441,6 +441,14 @@ class Multiplexer(wiring.Component):
                     chunk = Multiplexer._Shadow.Chunk(self, chunk_offset, chunk_registers)
                     self._chunks[chunk_offset] = chunk
             else:
+                # Doubling the shadow only helps while it adds address bits that can tell the
+                # conflicting registers apart. Once the shadow offset covers every address bit in
+                # use, the remaining conflicts (registers that are not aligned to their size wrap
+                # around onto their neighbours) cannot be resolved by growing it further.
+                if self._size >= 2 ** ceil_log2(max(r.stop for r in self._ranges)):
+                    raise ValueError(f"Shadow register {self.name!r} cannot satisfy the constraint "
+                                     f"of at most {self.overlaps} overlapping CSR register(s) per "
+                                     f"chunk with this register layout")
                 self._size *= 2
                 self.prepare()
 
